@@ -23,6 +23,9 @@ LEVEL_TEXT = ("static: decides only the finite part of RFC agreement: header fla
 # fifth-round additions
 TECHNIQUE += "; " + "exact evaluation of ares_dns_class_isvalid (switch included) over types x classes, linear normal form of the name splitter's rejecting guards at the legal maxima, guard vocabulary of the name write path, escape-aware gate on the compression match, shape of the option-storing callee"
 LEVEL_TEXT += " " + "(CLASS) undecoded types are taken with any class, IN/CH/HS/NONE for every type, ANY in questions; (NAMELEN) labels of 63 and names of 255 wire octets pass the splitter; (PRESLIMIT) no failure on the length of a presentation name on the write path; (SUFFIX) a compression match is accepted only behind a gate derived from a test of the escape character; (PURE) the OPT class/ttl overload is keyed on the record's own type; (OPTDUP) repeated option codes are not collapsed -- violated on the pinned tree, known finding."
+# sixth-round additions
+TECHNIQUE += "; " + "frozen RFC table of character-strings that may be empty; exact evaluation of the escape gate of the compression lookup over modelled strings; comparator of the option scan's early exit"
+LEVEL_TEXT += " " + '(BLANK) character-strings the RFCs allow to be empty are parsed with blank_allowed, the CAA tag is not; (SUFFIXEXACT) the escape test in front of a compression match is exact for 0..4 backslashes at any position of the name; (OPTKEY) a stored option is replaced only by one of the same code.'
 LEVEL_NOTE = "trusts clang CFG + extractor and the frozen table tables/iana.json (written from the RFCs); differential agreement on all messages needs execution"
 DESIGN_REF = "DESIGN.md §6/C04"
 EXPLANATION = LEVEL_TEXT
@@ -852,6 +855,43 @@ def r_optdup(prog, R):
     r.require(n >= 1, "ares_dns_parse_rr_opt: storing call not found")
 
 
+def r_optkey(prog, R):
+    r = R.rule("R-C04-OPTKEY", "an option being stored takes the place of a stored one only if their codes are equal: the scan over the stored options is left early on equality of the "
+               "codes and on nothing else (options arrive in wire order, which need not be ascending: 10, 3, 12, 8)", floor=1,
+               analysis="loop-exit edges of the scan in ares_dns_rr_set_opt_own: the comparison of the stored code with the code being stored must be '=='")
+    f = prog.func("ares_dns_rr_set_opt_own")
+    pn = {p_["n"] for p_ in f.params}
+    n = 0
+    for h, body in f.natural_loops().items():
+        for bid in body:
+            br = f.branch(bid)
+            if not br:
+                continue
+            for pol, tgt in ((True, br[1]), (False, br[2])):
+                if tgt is None or tgt in body:
+                    continue
+                for c, p_ in atoms(br[0], pol):
+                    op, l, rr = norm_cmp(c, p_)
+                    ls, rs = strip(l), strip(rr) if rr is not None else None
+                    if ls is None or rs is None:
+                        continue
+                    pair = None
+                    if ls.get("k") == "mem" and is_var(rs) and rs["n"] in pn and ls["f"] == rs["n"]:
+                        pair = (ls, rs)
+                    if rs.get("k") == "mem" and is_var(ls) and ls["n"] in pn and rs["f"] == ls["n"]:
+                        pair = (rs, ls)
+                    if pair is None:
+                        continue
+                    n += 1
+                    k = "scan left early only when %s equals %s" % (render(pair[0]), render(pair[1]))
+                    if op == "==":
+                        r.ok(k, f.loc(f.blocks[bid].term.get("ln", f.ln)))
+                    else:
+                        r.viol(k, f.name, f.loc(f.blocks[bid].term.get("ln", f.ln)), "the scan over the stored options stops when '%s %s %s' and the element found is then overwritten: with wire options "
+                               "10, 3, 12, 8 the parser reports two options, COOKIE and PADDING are silently replaced by later ones" % (render(strip(l)), op, render(strip(rr))))
+    r.require(n >= 1, "ares_dns_rr_set_opt_own: early exit of the option scan not found")
+
+
 def run(prog, R, tier):
     R.assume("tables/iana.json reproduces the IANA registries and RFC bit layouts correctly (written from the RFCs, not from the code)")
     r_bits(prog, R)
@@ -867,5 +907,8 @@ def run(prog, R, tier):
     r_class(prog, R)
     r_namelen(prog, R)
     r_optdup(prog, R)
+    r_optkey(prog, R)
     codecrules.r_preslimit(prog, R, "R-C04-PRESLIMIT")
     codecrules.r_suffix(prog, R, "R-C04-SUFFIX")
+    codecrules.r_blank(prog, R, "R-C04-BLANK")
+    codecrules.r_suffix_exact(prog, R, "R-C04-SUFFIXEXACT")
